@@ -358,11 +358,17 @@ func (c *client) sendExecutionResult(runID string, result ExecutionResult) {
 	close(signalChannel)
 }
 
-func (c *client) sendErrorToAll(err error) {
+// sendErrorToAll fails all waiting steps. If readLoopStops is true, the read loop is about to exit
+// and is marked as stopped in the same critical section, so that a later Execute starts a new one
+// instead of waiting for a loop that is already gone.
+func (c *client) sendErrorToAll(err error, readLoopStops bool) {
 	result := NewErrorExecutionResult(err)
 	c.mutex.Lock()
 	for runID := range c.runningStepResultEntries {
 		c.sendExecutionResult(runID, result)
+	}
+	if readLoopStops {
+		c.readLoopRunning = false
 	}
 	c.mutex.Unlock()
 }
@@ -414,11 +420,11 @@ func (c *client) handleErrorMessage(runtimeMessage DecodedRuntimeMessage) bool {
 	resultMsg := fmt.Errorf("step with run ID %q sent error message: %s", runtimeMessage.RunID, errorMessageStr)
 	c.logger.Errorf(resultMsg.Error())
 	if errMessage.ServerFatal {
-		c.sendErrorToAll(resultMsg)
+		c.sendErrorToAll(resultMsg, true)
 		return true // It's server fatal, so this is the last message from the server.
 	} else if errMessage.StepFatal {
 		if runtimeMessage.RunID == "" {
-			c.sendErrorToAll(fmt.Errorf("step fatal error missing run id (%w)", resultMsg))
+			c.sendErrorToAll(fmt.Errorf("step fatal error missing run id (%w)", resultMsg), false)
 		} else {
 			c.mutex.Lock()
 			c.sendExecutionResult(runtimeMessage.RunID, NewErrorExecutionResult(resultMsg))
@@ -428,7 +434,11 @@ func (c *client) handleErrorMessage(runtimeMessage DecodedRuntimeMessage) bool {
 	return false
 }
 
-func (c *client) hasEntriesRemaining() bool {
+// stopReadLoopIfIdle marks the read loop as stopped if no step is waiting for a result, and returns
+// whether it did. The check and the update are one critical section: an Execute that registers its
+// entry before it keeps the loop running, one that registers after it starts a new loop. (Clearing the
+// flag in a separate step left a window in which a new Execute relied on a loop that was exiting.)
+func (c *client) stopReadLoopIfIdle() bool {
 	c.mutex.Lock()
 	defer c.mutex.Unlock()
 	for _, resultEntry := range c.runningStepResultEntries {
@@ -436,19 +446,16 @@ func (c *client) hasEntriesRemaining() bool {
 		// Context: There is a fraction of time when the entry is still in the map
 		// following completion. It is set to a non-nil value when done.
 		if resultEntry.result == nil {
-			return true
+			return false
 		}
 	}
-	return false
+	c.readLoopRunning = false
+	return true
 }
 
 func (c *client) executeReadLoop(cborReader *cbor.Decoder) {
-	defer func() {
-		c.mutex.Lock()
-		defer c.mutex.Unlock()
-		c.readLoopRunning = false
-		c.wg.Done()
-	}()
+	// Every exit path marks the loop as stopped itself, together with the decision to exit.
+	defer c.wg.Done()
 	// Loop and get all messages
 	// The message is generic, so we must find the type and decode the full message next.
 	var runtimeMessage DecodedRuntimeMessage
@@ -460,7 +467,7 @@ func (c *client) executeReadLoop(cborReader *cbor.Decoder) {
 				err,
 			)
 			// This is fatal since the entire structure of the runtime message is invalid.
-			c.sendErrorToAll(fmt.Errorf("failed to read or decode runtime message (%w)", err))
+			c.sendErrorToAll(fmt.Errorf("failed to read or decode runtime message (%w)", err), true)
 			return
 		}
 		switch runtimeMessage.MessageID {
@@ -480,7 +487,7 @@ func (c *client) executeReadLoop(cborReader *cbor.Decoder) {
 			)
 		}
 		// The non-error exit condition is having no more entries remaining.
-		if !c.hasEntriesRemaining() {
+		if c.stopReadLoopIfIdle() {
 			return
 		}
 	}
